@@ -90,6 +90,8 @@ package server
 //@ props C08 C05
 //@ let S = client.server.sessionStore
 //@ requires [C08] client != nil && dis != nil && client.opts != nil && client.server != nil && client.server.sessionStore != nil && (client.version == 5 ==> dis.Properties != nil)
+// a connected client has a session (it is created at registration and removed only after the connection ended)
+//@ requires [C05] client.server.sessionStore.$has[client.opts.ClientID]
 //@ modifies client.disconnect, client.cleanWillFlag, ghost(S.$expSets), ghost(S.$lastExpID), ghost(S.$lastExp)
 //@ ensures [C08] result == nil ==> client.disconnect == dis && client.cleanWillFlag == (dis.Code != 4)
 //@ ensures [C08] result != nil ==> client.cleanWillFlag == old(client.cleanWillFlag) && client.disconnect == old(client.disconnect) && S.$expSets == old(S.$expSets)
